@@ -212,6 +212,8 @@ def evaluate(c: Dict[str, Any]) -> Tuple[List[Any], Dict[str, Any]]:
     client: PacedClient = r['client']
     exp = r['exp']
     feat = {'source': c['source'], 'mode': c.get('mode', 'local')}
+    if ['shut'] in c['c_ops']:
+        feat['client_half_closes'] = True
     out: List[Any] = []
     short = sum(ks.short for ks in w.ksocks if ks.kname.startswith('client'))
     info = {'short': short, 'pending': r['state']['pending_at_teardown'], 'bytes': len(client.inbuf), 'iters': w.iter}
@@ -226,7 +228,7 @@ def evaluate(c: Dict[str, Any]) -> Tuple[List[Any], Dict[str, Any]]:
         # what must have arrived
         if exp.get('raw'):
             want = r['ostream']
-            if exp.get('received_only'):
+            if exp.get('received_only') or ['shut'] in c['c_ops']:
                 up = [ks for ks in w.ksocks if ks.kname.startswith('upstream')]
                 want = want[:up[0].bytes_in] if up else b''
                 info['received_from_upstream'] = len(want)
@@ -262,7 +264,8 @@ def evaluate(c: Dict[str, Any]) -> Tuple[List[Any], Dict[str, Any]]:
                 out.append(('output-stalled', feat, {'bytes': len(got), 'iters': w.iter}, 'complete output then EOF'))
             elif complete and client.eof_iter is not None:
                 t_last = client.rx_marks[-1][0] if client.rx_marks else 0
-                ref = max(t_last, client.script_done_iter or 0)
+                # (a half-closing client: the proxy can only end the exchange once that half-close has happened)
+                ref = max(t_last, client.script_done_iter or 0, client.shut_iter or 0)
                 origin = w.peers.get('origin')
                 if origin is not None and c['source'] in ('origin_close', 'origin_early_close'):
                     # the proxy can only pass on a close it has learnt of (EOF or error on the upstream socket)
@@ -294,6 +297,10 @@ def read_ops(max_len: int) -> Any:
 def cases(draw: Any, source: str, mode: str, big: int) -> Dict[str, Any]:
     c: Dict[str, Any] = {'source': source, 'mode': mode}
     c['c_ops'] = draw(read_ops(30))
+    if draw(st.integers(0, 3)) == 0:
+        # the client half-closes (SHUT_WR) after its request and keeps reading: the proxy ends the exchange, and what it has
+        # queued (and, for origin data, received) by then must still arrive before the close
+        c['c_ops'].insert(draw(st.integers(0, len(c['c_ops']))), ['shut'])
     cap = st.sampled_from([0, 0, 0, 1, 2, 7, 64, 1460, 65536, None])
     c['caps_client'] = draw(st.one_of(st.none(), st.lists(cap, min_size=1, max_size=8).filter(lambda l: any(x != 0 for x in l))))
     c['sndbuf'] = draw(st.sampled_from([None, 4096, 16384]))
@@ -346,7 +353,7 @@ def shards(tier: str) -> List[Dict[str, Any]]:
 def run_shard(spec: Dict[str, Any], seed: int, acc: Any) -> None:
     def chk(c: Dict[str, Any]) -> List[Any]:
         vs, info = evaluate(c)
-        labs = ['source:' + c['source'], 'mode:' + c['mode']]
+        labs = ['source:' + c['source'], 'mode:' + c['mode']] + (['client-half-closes'] if ['shut'] in c['c_ops'] else [])
         if info.get('inconclusive'):
             acc.dontcare += 1
             labs.append('inconclusive:iteration-budget')
